@@ -622,7 +622,7 @@ def w8_copied_column_holds_the_rows(prog):
         for p in paths:
             if p.ended != 'return':
                 continue
-            rebuilt = [e for e in p.events if e['k'] == 'from_raw' and e['what'] == 'vec']
+            rebuilt = [e for e in p.events if e['k'] == 'from_raw']
             if not rebuilt:
                 continue
             src_cols = set()
